@@ -66,6 +66,9 @@ def solve(formula, display=True, log=False, params={}):
                 solver.Add(left == const[j])
             else:
                 solver.Add(left <= const[j])
+        else:
+            lower = const[j] if sense[j] == 1 else -solver.infinity()
+            solver.Constraint(float(lower), float(const[j]))
 
     if display:
         print('Being solved by OR-Tools...', flush=True)
